@@ -1292,4 +1292,320 @@ theorem nullifKernel_decode {α : Type} (a : Arr α) (hwf : a.WF) (r : List (Opt
     unfold nullifKernel
     simp [hne]
 
+/-! ### interleave -/
+
+theorem getIdx_ofNat {α : Type} (l : List α) (k : Nat) : getIdx l (k : Int) = l[k]? := by
+  unfold getIdx
+  have : ¬ ((k : Int) < 0) := by omega
+  simp [this]
+
+theorem getElem?_decodeWith {α : Type} (vals : List α) (bits : List Bool) (hl : vals.length = bits.length) (k : Nat) :
+    (decodeWith vals bits)[k]? =
+      (vals[k]?).bind (fun v => (bits[k]?).map (fun b => if b then some v else none)) := by
+  have := getIdx_decodeWith vals bits hl (k : Int)
+  rw [getIdx_ofNat, getIdx_ofNat, getIdx_ofNat] at this
+  rw [this]
+  cases vals[k]? <;> cases bits[k]? <;> rfl
+
+/-- per-element lookups of `interleave` -/
+def ivStep {α : Type} (arrs : List (Arr α)) (p : Nat × Nat) : Option α := (arrs[p.1]?).bind (fun a => a.vals[p.2]?)
+def inStep {α : Type} (arrs : List (Arr α)) (p : Nat × Nat) : Option Bool := (arrs[p.1]?).bind (fun a => (validityOf a)[p.2]?)
+def isStep {α : Type} (arrs : List (Arr α)) (p : Nat × Nat) : Option (Option α) :=
+  ((arrs.map Arr.decode)[p.1]?).bind (fun a => a[p.2]?)
+
+theorem interleave_elem {α : Type} (arrs : List (Arr α)) (hwf : ∀ a ∈ arrs, a.WF) (p : Nat × Nat) :
+    isStep arrs p =
+      (ivStep arrs p).bind (fun v => (inStep arrs p).map (fun b => if b then some v else none)) := by
+  unfold isStep ivStep inStep
+  rw [List.getElem?_map]
+  cases ha : arrs[p.1]? with
+  | none => simp
+  | some a =>
+    have hmem : a ∈ arrs := List.mem_of_getElem? ha
+    obtain ⟨hD, hl⟩ := decode_validityOf a (hwf a hmem)
+    simp only [Option.map_some, Option.bind_some]
+    rw [hD]
+    exact getElem?_decodeWith a.vals (validityOf a) hl p.2
+
+theorem interleave_lists {α : Type} (arrs : List (Arr α)) (hwf : ∀ a ∈ arrs, a.WF) (idx : List (Nat × Nat)) :
+    match idx.mapM (isStep arrs) with
+    | some r => ∃ v b, idx.mapM (ivStep arrs) = some v ∧ idx.mapM (inStep arrs) = some b ∧
+        decodeWith v b = r ∧ v.length = b.length
+    | none => idx.mapM (ivStep arrs) = none ∨ idx.mapM (inStep arrs) = none := by
+  induction idx with
+  | nil => simp [decodeWith]
+  | cons p idx ih =>
+    simp only [List.mapM_cons]
+    rw [interleave_elem arrs hwf p]
+    cases hv : ivStep arrs p with
+    | none => simp
+    | some x =>
+      cases hb : inStep arrs p with
+      | none => simp
+      | some y =>
+        simp only [Option.bind_some, Option.map_some]
+        cases hs : idx.mapM (isStep arrs) with
+        | none =>
+          rw [hs] at ih
+          rcases ih with ih | ih <;> simp [ih]
+        | some r =>
+          rw [hs] at ih
+          obtain ⟨v, b, h1, h2, h3, h4⟩ := ih
+          simp [h1, h2, decodeWith, h3, h4]
+
+theorem inStep_all_true {α : Type} (arrs : List (Arr α))
+    (hno : ∀ a ∈ arrs, countSet (validityOf a) = (validityOf a).length)
+    (idx : List (Nat × Nat)) (b : List Bool) (h : idx.mapM (inStep arrs) = some b) :
+    countSet b = b.length := by
+  induction idx generalizing b with
+  | nil => simp at h; subst h; rfl
+  | cons p idx ih =>
+    simp only [List.mapM_cons] at h
+    cases hb : inStep arrs p with
+    | none => simp [hb] at h
+    | some y =>
+      cases hr : idx.mapM (inStep arrs) with
+      | none => simp [hb, hr] at h
+      | some bs =>
+        simp [hb, hr] at h
+        subst h
+        have hy : y = true := by
+          unfold inStep at hb
+          cases ha : arrs[p.1]? with
+          | none => simp [ha] at hb
+          | some a =>
+            simp only [ha, Option.bind_some] at hb
+            have hmem : a ∈ arrs := List.mem_of_getElem? ha
+            have hrep := all_true_eq_replicate (validityOf a) (hno a hmem)
+            rw [hrep] at hb
+            have := List.mem_of_getElem? hb
+            exact List.eq_of_mem_replicate this
+        subst hy
+        rw [countSet_cons, ih bs hr]
+        simp; omega
+
+theorem interleavePrimitive_spec {α : Type} (arrs : List (Arr α)) (hwf : ∀ a ∈ arrs, a.WF) (idx : List (Nat × Nat)) :
+    match interleaveSpec (arrs.map Arr.decode) idx with
+    | some r => ∃ out, interleavePrimitive arrs idx = some out ∧ out.decode = r
+    | none => interleavePrimitive arrs idx = none := by
+  have h := interleave_lists arrs hwf idx
+  have e1 : interleaveSpec (arrs.map Arr.decode) idx = idx.mapM (isStep arrs) := rfl
+  rw [e1]
+  unfold interleavePrimitive
+  change match idx.mapM (isStep arrs) with
+    | some r => ∃ out, (match idx.mapM (ivStep arrs), idx.mapM (inStep arrs) with
+        | some v, some n => some ({ vals := v, nulls := if (arrs.any (fun a => match a.nulls with | some b => decide (nullCount b ≠ 0) | none => false)) = true then some n else none } : Arr α)
+        | _, _ => none) = some out ∧ out.decode = r
+    | none => (match idx.mapM (ivStep arrs), idx.mapM (inStep arrs) with
+        | some v, some n => some ({ vals := v, nulls := if (arrs.any (fun a => match a.nulls with | some b => decide (nullCount b ≠ 0) | none => false)) = true then some n else none } : Arr α)
+        | _, _ => none) = none
+  cases hs : idx.mapM (isStep arrs) with
+  | none =>
+    rw [hs] at h
+    simp only at h ⊢
+    rcases h with h | h
+    · rw [h]
+    · rw [h]; cases idx.mapM (ivStep arrs) <;> rfl
+  | some r =>
+    rw [hs] at h
+    simp only at h ⊢
+    obtain ⟨v, b, h1, h2, h3, h4⟩ := h
+    rw [h1, h2]
+    refine ⟨_, rfl, ?_⟩
+    by_cases hn : (arrs.any (fun a => match a.nulls with | some b => decide (nullCount b ≠ 0) | none => false)) = true
+    · simp only [hn, if_true]
+      rw [decode_some]; exact h3
+    · simp only [hn, Bool.false_eq_true, if_false]
+      rw [decode_none, ← h3]
+      have hno : ∀ a ∈ arrs, countSet (validityOf a) = (validityOf a).length := by
+        intro a ha
+        unfold validityOf
+        cases hnl : a.nulls with
+        | none => simp [countSet]
+        | some bs =>
+          simp only
+          have : ¬ (decide (nullCount bs ≠ 0) = true) := by
+            intro hc
+            apply hn
+            rw [List.any_eq_true]
+            exact ⟨a, ha, by simp only [hnl]; exact hc⟩
+          have hz : nullCount bs = 0 := by simpa using this
+          unfold nullCount at hz
+          have := countSet_le bs
+          omega
+      exact (decodeWith_all_valid v b (inStep_all_true arrs hno idx b h2) h4).symm
+
+/-! ### shift -/
+
+theorem decodeWith_drop {α : Type} (vals : List α) (bs : List Bool) (c : Nat) :
+    decodeWith (vals.drop c) (bs.drop c) = (decodeWith vals bs).drop c := by
+  induction vals generalizing bs c with
+  | nil => cases bs <;> cases c <;> simp [decodeWith]
+  | cons v vals ih =>
+    cases bs with
+    | nil => cases c <;> simp [decodeWith]
+    | cons b bs =>
+      cases c with
+      | zero => simp [decodeWith]
+      | succ c => simp [decodeWith, ih]
+
+theorem slice_decode {α : Type} (a : Arr α) (hwf : a.WF) (off n : Nat) :
+    (a.slice off n).decode = (a.decode.drop off).take n ∧ (a.slice off n).WF := by
+  unfold Arr.slice
+  cases hn : a.nulls with
+  | none =>
+    constructor
+    · unfold Arr.decode; simp [hn]
+    · intro bs h; simp at h
+  | some bs =>
+    constructor
+    · unfold Arr.decode; simp [hn, decodeWith_take, decodeWith_drop]
+    · intro b h
+      simp at h
+      subst h
+      simp [hwf bs hn]
+
+theorem nullArr_decode {α : Type} [Inhabited α] (n : Nat) :
+    (nullArr n : Arr α).decode = List.replicate n none ∧ (nullArr n : Arr α).WF := by
+  constructor
+  · unfold nullArr Arr.decode
+    simp only
+    induction n with
+    | zero => simp [decodeWith]
+    | succ n ih => simp [List.replicate_succ, decodeWith, ih]
+  · intro bs h
+    unfold nullArr at h ⊢
+    simp at h
+    subst h
+    simp
+
+theorem shift_right_list {α : Type} (vs : List (Option α)) (k : Nat) (hk : 0 < k) (hlt : k < vs.length) :
+    List.replicate k none ++ vs.take (vs.length - k) = shiftSpec vs (k : Int) := by
+  apply List.ext_getElem?
+  intro i
+  unfold shiftSpec
+  rw [List.getElem?_map]
+  by_cases hi : i < vs.length
+  · rw [List.getElem?_range hi]
+    simp only [Option.map_some]
+    by_cases hik : i < k
+    · rw [List.getElem?_append_left (by simpa using hik)]
+      have : (i : Int) - (k : Int) < 0 := by omega
+      simp [this, hik]
+    · rw [List.getElem?_append_right (by simp; omega)]
+      have hneg : ¬ ((i : Int) - (k : Int) < 0) := by omega
+      have htn : ((i : Int) - (k : Int)).toNat = i - k := by omega
+      simp only [hneg, if_false, htn, List.length_replicate]
+      rw [List.getElem?_take]
+      have : i - k < vs.length - k := by omega
+      simp only [this, if_true]
+      rw [List.getElem?_eq_getElem (by omega)]
+      simp
+  · rw [List.getElem?_eq_none (by simp; omega), List.getElem?_eq_none (by simp; omega)]
+    rfl
+
+theorem shift_left_list {α : Type} (vs : List (Option α)) (m : Nat) (hm : 0 < m) (hlt : m < vs.length) :
+    vs.drop m ++ List.replicate m none = shiftSpec vs (-(m : Int)) := by
+  apply List.ext_getElem?
+  intro i
+  unfold shiftSpec
+  rw [List.getElem?_map]
+  by_cases hi : i < vs.length
+  · rw [List.getElem?_range hi]
+    simp only [Option.map_some]
+    have hneg : ¬ ((i : Int) - -(m : Int) < 0) := by omega
+    have htn : ((i : Int) - -(m : Int)).toNat = i + m := by omega
+    simp only [hneg, if_false, htn]
+    by_cases him : i < vs.length - m
+    · rw [List.getElem?_append_left (by simp; omega), List.getElem?_drop]
+      have : m + i = i + m := by omega
+      rw [this, List.getElem?_eq_getElem (by omega)]
+      simp
+    · have hlen' : (vs.drop m).length = vs.length - m := by simp
+      rw [List.getElem?_append_right (by omega), hlen', List.getElem?_replicate]
+      have hx : i - (vs.length - m) < m := by omega
+      simp only [hx, if_true]
+      rw [List.getElem?_eq_none (l := vs) (by omega)]
+      rfl
+  · rw [List.getElem?_eq_none (by simp; omega), List.getElem?_eq_none (by simp; omega)]
+    rfl
+
+theorem shift_all_null_list {α : Type} (vs : List (Option α)) (k : Int) (hk : k.natAbs ≥ vs.length) (h0 : k ≠ 0) :
+    List.replicate vs.length none = shiftSpec vs k := by
+  apply List.ext_getElem?
+  intro i
+  unfold shiftSpec
+  rw [List.getElem?_map]
+  by_cases hi : i < vs.length
+  · rw [List.getElem?_range hi]
+    simp only [Option.map_some]
+    rw [List.getElem?_replicate]
+    simp only [hi, if_true]
+    by_cases hneg : (i : Int) - k < 0
+    · simp [hneg]
+    · simp only [hneg, if_false]
+      rw [List.getElem?_eq_none (by omega)]
+      rfl
+  · rw [List.getElem?_eq_none (by simp; omega), List.getElem?_eq_none (by simp; omega)]
+    rfl
+
+theorem shift_zero_list {α : Type} (vs : List (Option α)) : vs = shiftSpec vs 0 := by
+  apply List.ext_getElem?
+  intro i
+  unfold shiftSpec
+  rw [List.getElem?_map]
+  by_cases hi : i < vs.length
+  · rw [List.getElem?_range hi]
+    have h1 : ¬ ((i : Int) - 0 < 0) := by omega
+    have h2 : ((i : Int) - 0).toNat = i := by omega
+    simp only [Option.map_some, h1, if_false, h2]
+    rw [List.getElem?_eq_getElem hi]
+    rfl
+  · rw [List.getElem?_eq_none (by omega), List.getElem?_eq_none (by simp; omega)]
+    rfl
+
+theorem shiftKernel_decode {α : Type} [Inhabited α] (a : Arr α) (hwf : a.WF) (k : Int) :
+    (shiftKernel a k).decode = shiftSpec a.decode k := by
+  have hlen := Arr.length_decode a hwf
+  unfold shiftKernel
+  by_cases h0 : k = 0
+  · subst h0; simp only [if_true]; exact shift_zero_list _
+  simp only [h0, if_false]
+  by_cases habs : k.natAbs ≥ a.len
+  · simp only [habs, if_true]
+    rw [(nullArr_decode a.len).1, ← hlen]
+    exact shift_all_null_list a.decode k (by omega) h0
+  simp only [habs, if_false]
+  by_cases hpos : k > 0
+  · simp only [hpos, if_true]
+    have hw : ∀ x ∈ [nullArr k.toNat, a.slice 0 (a.len - k.toNat)], Arr.WF x := by
+      intro x hx
+      simp only [List.mem_cons, List.mem_nil_iff, or_false] at hx
+      rcases hx with hx | hx
+      · subst hx; exact (nullArr_decode _).2
+      · subst hx; exact (slice_decode a hwf _ _).2
+    rw [(concatPrimitive_decode _ hw).1]
+    simp only [concatSpec, List.map_cons, List.map_nil, List.flatten_cons, List.flatten_nil, List.append_nil]
+    rw [(nullArr_decode _).1, (slice_decode a hwf _ _).1, List.drop_zero, ← hlen]
+    have hk : (k.toNat : Int) = k := by omega
+    rw [← hk]
+    exact shift_right_list a.decode k.toNat (by omega) (by omega)
+  · simp only [hpos, if_false]
+    have hw : ∀ x ∈ [a.slice (-k).toNat (a.len - (-k).toNat), nullArr (-k).toNat], Arr.WF x := by
+      intro x hx
+      simp only [List.mem_cons, List.mem_nil_iff, or_false] at hx
+      rcases hx with hx | hx
+      · subst hx; exact (slice_decode a hwf _ _).2
+      · subst hx; exact (nullArr_decode _).2
+    rw [(concatPrimitive_decode _ hw).1]
+    simp only [concatSpec, List.map_cons, List.map_nil, List.flatten_cons, List.flatten_nil, List.append_nil]
+    rw [(nullArr_decode _).1, (slice_decode a hwf _ _).1]
+    have hk : k = -(((-k).toNat : Nat) : Int) := by omega
+    have htake : (a.decode.drop (-k).toNat).take (a.len - (-k).toNat) = a.decode.drop (-k).toNat := by
+      apply List.take_of_length_le
+      simp; omega
+    rw [htake]
+    conv => rhs; rw [hk]
+    exact shift_left_list a.decode (-k).toNat (by omega) (by omega)
+
 end ArrowModel.C03
